@@ -194,6 +194,9 @@ def run(ctx):
     # fee delegation with / without amount around a dropped tx, sender repeating in the block
     fd = D.feedeleg_family(ctx.rng, "fd")
     cases += fd if not quick else ctx.rng.sample(fd, 24)
+    # a refused sibling (executed, then rejected: real dpos.Status.Update(best) must clear its residue) before a valid block
+    rf = D.refused_family(ctx.rng, "refused")
+    cases += rf if not quick else ctx.rng.sample(rf, 16)
     # the block-generation deadline at every position of the candidate list
     cases += D.deadline_family(ctx.rng, "dl-fixed", ver=3, public=True)
     for i in range(1 if quick else 40):
@@ -230,6 +233,10 @@ def run(ctx):
             evals += 1
             for bi, (pb, vb) in enumerate(zip(p0["blocks"], v["blocks"])):
                 problems = []
+                if vb.get("refused") == "ACCEPTED":
+                    raise RuntimeError("determ engine: the sibling meant to be refused was accepted (case %s block %d)" % (c["id"], bi + 1))
+                if vb.get("refused"):
+                    hist["refused_siblings"] = hist.get("refused_siblings", 0) + 1
                 if vb.get("add_err") or vb.get("add_panic") or not vb.get("connected"):
                     problems.append("rejected: %s%s" % (vb.get("add_err"), vb.get("add_panic") or ""))
                 elif vb["node_root"] != pb["state_root"]:
